@@ -112,6 +112,11 @@ func (mm *Mem) Resolve(p *smt.Term) []Target {
 			rec(p.Args[2], smt.BAnd(g, smt.BNot(p.Args[0])), depth+1)
 			return
 		}
+		if q, cnd, a, b := liftIteAddend(p); q && depth < 12 {
+			rec(a, smt.BAnd(g, cnd), depth+1)
+			rec(b, smt.BAnd(g, smt.BNot(cnd)), depth+1)
+			return
+		}
 		base, c := smt.SplitAdd(p)
 		if base == nil {
 			a := mm.Find(c)
@@ -138,6 +143,37 @@ func (mm *Mem) Resolve(p *smt.Term) []Target {
 	}
 	rec(p, smt.True, 0)
 	return out
+}
+
+// liftIteAddend finds an ite among the addends of a sum (pointer = ite(nil, 0,
+// base) + offset) and returns the two sums with the ite resolved.
+func liftIteAddend(p *smt.Term) (ok bool, cond, a, b *smt.Term) {
+	if p.Op != smt.OAdd {
+		return
+	}
+	var addends []*smt.Term
+	var flat func(t *smt.Term, d int)
+	flat = func(t *smt.Term, d int) {
+		if t.Op == smt.OAdd && d < 8 {
+			flat(t.Args[0], d+1)
+			flat(t.Args[1], d+1)
+			return
+		}
+		addends = append(addends, t)
+	}
+	flat(p, 0)
+	for i, t := range addends {
+		if t.Op == smt.OIte && (t.Args[1].IsConst() || t.Args[2].IsConst()) {
+			sa, sb := t.Args[1], t.Args[2]
+			for j, o := range addends {
+				if j != i {
+					sa, sb = smt.Add(sa, o), smt.Add(sb, o)
+				}
+			}
+			return true, t.Args[0], sa, sb
+		}
+	}
+	return
 }
 
 // stride guesses the stride of a symbolic offset term.
@@ -353,7 +389,7 @@ func BytesFromInt(v *smt.Term) []*smt.Term {
 	n := v.W / 8
 	out := make([]*smt.Term, n)
 	for i := 0; i < n; i++ {
-		out[i] = smt.Extract(v, 8*i+7, 8*i)
+		out[i] = smt.ExtractByte(v, 8*i+7, 8*i)
 	}
 	return out
 }
